@@ -9,7 +9,7 @@ use serde_json::{json, Value};
 use std::sync::{Arc, Mutex};
 
 // (U+2028 / U+2029 / U+0085 are no line breaks for the parser: values holding them must come through unchanged)
-const VALS: [&str; 37] = ["", " ", "   ", "a", "a b", " a ", "x=y", "\\", "a\\b", "é", "0", "false", "-r", "two  spaces", "\t", "a\t", "\ta", "a\tb", "\u{a0}", "=a", "=", "a=", ":a", "!a", "a b\\", "C:\\my dir\\", "x\\",
+const VALS: [&str; 42] = ["record", "dflt", "\u{1b}[0m", "a\u{7f}b", "\u{1}", "", " ", "   ", "a", "a b", " a ", "x=y", "\\", "a\\b", "é", "0", "false", "-r", "two  spaces", "\t", "a\t", "\ta", "a\tb", "\u{a0}", "=a", "=", "a=", ":a", "!a", "a b\\", "C:\\my dir\\", "x\\",
     "a\u{2028}b", "a\u{2029}b c", "x\u{85}y", "a\u{b}b", "\u{feff}a b", "100%$5", "a$%b", "%$", "$$", "%%x"];
 
 pub fn gen(r: &mut Rng) -> Value {
@@ -20,7 +20,7 @@ pub fn gen(r: &mut Rng) -> Value {
     }
     let n = r.below(4);
     let args: Vec<String> = (0..n).map(|_| r.pick(&VALS).to_string()).collect();
-    json!({"args": args, "wrapper": r.below(5)})
+    json!({"args": args, "wrapper": r.below(7)})
 }
 
 fn quote(s: &str) -> String {
@@ -132,8 +132,13 @@ fn run_inner(input: &Value) -> Option<Value> {
         1 => format!("if {}\nout = set yes\nend", call),
         2 => format!("alias rec2 record\nout = rec2 {}", written.join(" ")),
         3 => format!("if false\nskipped = set yes\nelseif {}\nout = set yes\nend", call),
-        _ => format!("while {}\nout = set yes\ngoto :wend\nend\n:wend", call),
+        4 => format!("while {}\nout = set yes\ngoto :wend\nend\n:wend", call),
+        // the eval command runs its words as one statement
+        5 => format!("out = eval {}", call),
+        // an alias with a stored argument of its own: the call's arguments follow it
+        _ => format!("alias rec3 record dflt\nout = rec3 {}", written.join(" ")),
     };
+    let args: Vec<String> = if wrapper >= 6 { let mut a = vec!["dflt".to_string()]; a.extend(args); a } else { args };
     match runner::run_script(&script, context, None) {
         Ok(_) => {
             let got = calls.lock().unwrap().clone();
